@@ -748,7 +748,9 @@ class BaseProperty(base.BaseObject):
         if self.value_origin is None and other.value_origin is not None:
             self.value_origin = other.value_origin
         if self.uncertainty is None and other.uncertainty is not None:
-            self.uncertainty = other.uncertainty
+            # Take the value over as it is (as the constructor does); the setter
+            # might refuse it after the merge has already changed other attributes.
+            self._uncertainty = other.uncertainty
         if self.reference is None and other.reference is not None:
             self.reference = other.reference
         if self.definition is None and other.definition is not None:
